@@ -178,6 +178,8 @@ type env struct {
 	clients []net.Conn
 	cancels []func()
 
+	logLines []string // nbio's error log lines of the case
+
 	exchanges  int64
 	bytesOK    int64
 	multiConns int64 // connections that completed >= 2 exchanges
@@ -265,7 +267,7 @@ func runCase(r *h.Run, c caseT) {
 	default:
 		e.runServerCase()
 	}
-	if pl := h.PanicLines(capLog.Take()); len(pl) > 0 {
+	if pl := h.PanicLines(append(e.logLines, capLog.Take()...)); len(pl) > 0 {
 		r.Count("panics_recovered_and_logged_by_nbio", int64(len(pl)))
 		for i, l := range pl {
 			if i < 3 {
